@@ -23,11 +23,13 @@ def make_args(gate, rng, mode):
     out = {}
     for a in gc.GATE_ARGS[gate]:
         if a == "theta":
-            v = rng.choice([rng.uniform(-7, 7), math.pi, -math.pi / 2, math.pi / 4])
+            # incl. the zero set of the theta denominators (0.0, -0.0) and the small-angle regime of the covariance matrices
+            v = rng.choice([rng.uniform(-7, 7), math.pi, -math.pi / 2, math.pi / 4, 0.0, -0.0, rng.uniform(-6e-4, 6e-4),
+                            rng.uniform(-1e-6, 1e-6)])
         elif a.startswith("phi"):
             v = rng.uniform(-7, 7)
         elif a in ("t_cnot", "t_ecr"):
-            v = rng.uniform(6, 20) * TG
+            v = rng.choice([rng.uniform(6, 20), rng.uniform(3.1, 6)]) * TG        # long and short (but positive CR time) gates
         elif a == "t_cr":
             v = rng.uniform(0.5, 8) * TG
         elif a in ("Dt", "tm"):
